@@ -48,9 +48,9 @@ Post(e) ==
 
 OutOf(w, q) == FlattenSeq(w) \o q
 
-QuiescentS(st) == /\ \A d \in Dest : ~st.st[d] /\ ~st.rt[d]
+QuiescentS(st) == /\ \A d \in Dest : ~st.st[d] /\ (st.has[d] => ~st.rt[d])
                   /\ \A d \in Dest : st.cs[d] = "connected" => (st.pconn[d] /\ ~st.tp[d])
-                  /\ \A d \in Dest : st.cs[d] # "connecting"
+                  /\ \A d \in Dest : st.has[d] => st.cs[d] # "connecting"
 StuckS(st) == /\ QuiescentS(st) /\ ~st.stopped
               /\ \E d \in Dest : st.cs[d] = "connected" /\ st.has[d]
               /\ \A d \in Dest : Len(st.q[d]) < LowC
